@@ -1,16 +1,17 @@
 (* C09 — Wire and disk formats round-trip and preserve identity.
-   Only statements here; proofs are in proofs/CodecProofs.v.
+   Only statements here; proofs are in proofs/CodecProofs.v and CodecMsgProofs.v.
    For every format X of model/Codec.v (mirroring the Rust encoders/decoders
    slice for slice):
      X_decode_encode : wf_X v = true -> decode_X (encode_X v) = Ok v
      X_size          : the length of the encoding (get_serialized_size where the code has one)
-     X_canonical     : decode_X bs = Ok v -> encode_X v = bs        (where true of the code)
+     X_canonical     : decode_X bs = Ok v -> encode_X v = bs        (where true of the code;
+                       X_canonical_refuted with a witness where the code as written is not canonical)
    wf_X is the boolean range predicate (integer widths, array lengths, counts
-   that fit their wire width, enum tags in range).  bytes_ok bs says that bs is
-   a byte string (every element < 256).  Hashes and signatures are computed
-   over the decoded fields by the real code in the harness (c09): equal fields
-   => equal hash / signature verdict. *)
-From Saito Require Import Base Bytes BytesProofs Codec CodecProofs.
+   that fit their wire width, enum tags in range, text without separators).
+   bytes_ok bs says that bs is a byte string (every element < 256).
+   Hashes and signatures are computed over the decoded fields by the real code
+   in the harness (c09): equal fields => equal hash / signature verdict. *)
+From Saito Require Import Base Bytes BytesProofs Codec CodecProofs CodecMsgProofs.
 
 (* ---------------- Slip (59 bytes) ---------------- *)
 Theorem C09_slip_decode_encode : forall s, wf_slip s = true -> decode_slip (encode_slip s) = Ok s.
@@ -56,19 +57,141 @@ Theorem C09_tx_canonical : forall bs t,
   bytes_ok bs = true -> decode_tx bs = Ok t -> Nlen bs = size_tx t -> encode_tx t = bs.
 Proof. exact tx_canonical. Qed.
 
-(* non-vacuity: a well-formed transaction with two inputs of distinct types,
-   an output, a payload and a hop *)
-Example C09_example_tx :
+(* ---------------- Block (all BlockType arguments of serialize_for_net) ---------------- *)
+(* block_after_wire bt b: header-only serialisation drops the transactions; the
+   decoder sets block_type to Header when there are none (unless id = 1 with a
+   zero previous hash), else Full *)
+Theorem C09_block_decode_encode : forall bt b,
+  wf_block b = true -> decode_block (encode_block bt b) = Ok (block_after_wire bt b).
+Proof. exact block_decode_encode. Qed.
+
+Theorem C09_block_size : forall bt b, wf_block b = true -> Nlen (encode_block bt b) = size_block bt b.
+Proof. exact block_size. Qed.
+
+(* canonical re-encoding is false for blocks as written: avg_total_fees is
+   serialised twice (offsets 213 and 245) and only the second copy is read;
+   bytes after the declared transactions are ignored *)
+Theorem C09_block_canonical_refuted :
+  exists bs b, bytes_ok bs = true /\ decode_block bs = Ok b /\ encode_block BT_FULL b <> bs.
+Proof. exact block_canonical_refuted. Qed.
+
+(* ---------------- Message (every tag) ---------------- *)
+Theorem C09_message_decode_encode : forall m,
+  wf_message m = true -> decode_message (encode_message m) = Ok (message_after_wire m).
+Proof. exact message_decode_encode. Qed.
+
+Theorem C09_message_first_byte : forall m, exists p, encode_message m = message_type_value m :: p.
+Proof. exact message_first_byte. Qed.
+
+(* ---------------- Handshake ---------------- *)
+Theorem C09_hs_challenge_decode_encode : forall c,
+  arr_ok 32 c = true -> decode_hs_challenge (encode_hs_challenge c) = Ok c.
+Proof. exact hs_challenge_decode_encode. Qed.
+
+Theorem C09_hs_response_decode_encode : forall r,
+  wf_hs_response r = true -> decode_hs_response (encode_hs_response r) = Ok r.
+Proof. exact hs_response_decode_encode. Qed.
+
+Theorem C09_hs_response_size : forall r, wf_hs_response r = true ->
+  Nlen (encode_hs_response r) = 142 + Nlen (hr_url r) + Nlen (encode_services (hr_services r)).
+Proof. exact hs_response_size. Qed.
+
+(* ---------------- Version, PeerService list ---------------- *)
+Theorem C09_version_decode_encode : forall v,
+  wf_version v = true -> decode_version (encode_version v) = Ok v.
+Proof. exact version_decode_encode. Qed.
+
+Theorem C09_version_canonical_refuted :
+  exists bs v, bytes_ok bs = true /\ decode_version bs = Ok v /\ encode_version v <> bs.
+Proof. exact version_canonical_refuted. Qed.
+
+Theorem C09_services_decode_encode : forall l,
+  wf_services l = true -> decode_services (encode_services l) = Ok l.
+Proof. exact services_decode_encode. Qed.
+
+(* empty segments between ';' are skipped by the decoder *)
+Theorem C09_services_canonical_refuted :
+  exists bs l, bytes_ok bs = true /\ decode_services bs = Ok l /\ encode_services l <> bs.
+Proof. exact services_canonical_refuted. Qed.
+
+(* ---------------- BlockchainRequest, GhostChainSync, ApiMessage ---------------- *)
+Theorem C09_bc_request_decode_encode : forall r,
+  wf_bc_request r = true -> decode_bc_request (encode_bc_request r) = Ok r.
+Proof. exact bc_request_decode_encode. Qed.
+
+Theorem C09_bc_request_size : forall r, wf_bc_request r = true -> Nlen (encode_bc_request r) = 72.
+Proof. exact bc_request_size. Qed.
+
+Theorem C09_bc_request_canonical : forall bs r,
+  bytes_ok bs = true -> decode_bc_request bs = Ok r -> encode_bc_request r = bs.
+Proof. exact bc_request_canonical. Qed.
+
+Theorem C09_ghost_decode_encode : forall g,
+  wf_ghost g = true -> decode_ghost (encode_ghost g) = Ok g.
+Proof. exact ghost_decode_encode. Qed.
+
+Theorem C09_ghost_size : forall g,
+  wf_ghost g = true -> Nlen (encode_ghost g) = 36 + 82 * Nlen (g_prehashes g).
+Proof. exact ghost_size. Qed.
+
+(* any non-zero byte decodes to true; trailing bytes are ignored *)
+Theorem C09_ghost_canonical_refuted :
+  exists bs g, bytes_ok bs = true /\ decode_ghost bs = Ok g /\ encode_ghost g <> bs.
+Proof. exact ghost_canonical_refuted. Qed.
+
+Theorem C09_api_decode_encode : forall a, wf_api a = true -> decode_api (encode_api a) = Ok a.
+Proof. exact api_decode_encode. Qed.
+
+Theorem C09_api_size : forall a, Nlen (encode_api a) = 4 + Nlen (am_data a).
+Proof. exact api_size. Qed.
+
+Theorem C09_api_canonical : forall bs a,
+  bytes_ok bs = true -> decode_api bs = Ok a -> encode_api a = bs.
+Proof. exact api_canonical. Qed.
+
+(* ---------------- GoldenTicket (97 bytes), Wallet disk format (65 bytes) ---------------- *)
+Theorem C09_gt_decode_encode : forall g, wf_gt g = true -> decode_gt (encode_gt g) = Ok g.
+Proof. exact gt_decode_encode. Qed.
+
+Theorem C09_gt_size : forall g, wf_gt g = true -> Nlen (encode_gt g) = 97.
+Proof. exact gt_size. Qed.
+
+Theorem C09_gt_canonical : forall bs g, decode_gt bs = Ok g -> encode_gt g = bs.
+Proof. exact gt_canonical. Qed.
+
+Theorem C09_wallet_decode_encode : forall w,
+  wf_wallet w = true -> decode_wallet (encode_wallet w) = Ok w.
+Proof. exact wallet_decode_encode. Qed.
+
+Theorem C09_wallet_size : forall w, wf_wallet w = true -> Nlen (encode_wallet w) = WALLET_SIZE.
+Proof. exact wallet_size. Qed.
+
+(* bytes after the 65th are ignored by deserialize_from_disk *)
+Theorem C09_wallet_canonical_prefix : forall bs w,
+  decode_wallet bs = Ok w -> slice 0 65 bs = Some (encode_wallet w).
+Proof. exact wallet_canonical_prefix. Qed.
+
+(* ---------------- non-vacuity ---------------- *)
+(* a well-formed transaction with two inputs of distinct types, an output, a
+   payload and a hop; a block carrying it, through every BlockType; a message *)
+Example C09_example :
   let s1 := mkSlip (repeat 7 33) 18446744073709551615 1 2 255 9 in
   let s2 := mkSlip (repeat 8 33) 0 4294967296 3 0 0 in
   let t := mkTx 1700000000000 [s1; s2] [s2] [1; 2; 3] 8 4294967295 (repeat 9 64)
              [mkHop (repeat 1 33) (repeat 2 33) (repeat 3 64)] in
-  wf_tx t = true /\ Nlen (encode_tx t) = 403 /\ decode_tx (encode_tx t) = Ok t.
+  let b := mkBlock 5 6 (repeat 1 32) (repeat 2 33) (repeat 3 32) (repeat 4 64)
+             7 8 9 10 11 12 13 14 15 16 17 18 19 20 21 22 23 24 25 26 27 28 29 30 31 [t; t] 3 in
+  wf_tx t = true /\ Nlen (encode_tx t) = 403 /\ decode_tx (encode_tx t) = Ok t
+  /\ wf_block b = true /\ Nlen (encode_block BT_FULL b) = 1195 /\ Nlen (encode_block BT_HEADER b) = 389
+  /\ b_type (block_after_wire BT_HEADER b) = BT_HEADER /\ b_type (block_after_wire BT_PRUNED b) = BT_FULL
+  /\ wf_message (MBlock b) = true
+  /\ decode_message (encode_message (MBlock b)) = Ok (MBlock b).
 Proof. vm_compute. repeat split; reflexivity. Qed.
 
 Print Assumptions C09_slip_decode_encode.
-Print Assumptions C09_slip_canonical.
-Print Assumptions C09_hop_decode_encode.
 Print Assumptions C09_tx_decode_encode.
-Print Assumptions C09_tx_size.
 Print Assumptions C09_tx_canonical_prefix.
+Print Assumptions C09_block_decode_encode.
+Print Assumptions C09_message_decode_encode.
+Print Assumptions C09_hs_response_decode_encode.
+Print Assumptions C09_ghost_decode_encode.
